@@ -275,10 +275,12 @@ class DataConnection(Connection, abc.ABC):
         if self.state in (ConnectionState.CLOSED, ConnectionState.CLOSING):
             return
 
-        await self.set_state(ConnectionState.CLOSING, close_reason=reason)
-        adapter.debug("disconnecting : %s", reason.name, extra=self.__dict__)
-        self._cancel_queued_messages()
+        close_requested = False
         try:
+            await self.set_state(ConnectionState.CLOSING, close_reason=reason)
+            adapter.debug("disconnecting : %s", reason.name, extra=self.__dict__)
+            self._cancel_queued_messages()
+            close_requested = True
             if self._writer is not None:
                 if not self._writer.is_closing():
                     self._writer.close()
@@ -291,6 +293,13 @@ class DataConnection(Connection, abc.ABC):
                 "exception while disconnecting : %r", exc, extra=self.__dict__)
 
         finally:
+            # Cancelled while the listeners were being notified of the closing
+            # state: the connection still needs to be closed
+            if not close_requested:
+                self._cancel_queued_messages()
+                if self._writer is not None and not self._writer.is_closing():
+                    self._writer.close()
+
             await self.set_state(ConnectionState.CLOSED, close_reason=reason)
             # Because disconnect can be called when read failed setting the
             # reader task to none should be done last
